@@ -1,5 +1,6 @@
 (* C04 — parsing is total and exclusive, and truncated documents are always rejected. *)
 From Anytype Require Import Base FloatBits Value GoInt Utf8 Json JsonDoc SerializeProofs ParserBasics ParserCorrect RoundTrip.
+From Anytype Require Import FloatText.
 Local Open Scope Z_scope.
 
 Section C04.
@@ -39,7 +40,9 @@ Section C04_prefix.
   Variable pfloat : bytes -> option Z.
   Hypothesis F2 : forall b, is_finite b = true -> fbits_ok b = true -> exists n, parse_num_text (ser_float fmt_e fmt_f b) = Some n.
   Hypothesis F1 : forall b, is_finite b = true -> fbits_ok b = true -> pfloat (ser_float fmt_e fmt_f b) = Some b.
-  Hypothesis F4 : forall b, is_finite b = true -> fbits_ok b = true -> pint0 (ser_float fmt_e fmt_f b) = None.
+  (* F5: the 'e' format contains an 'e' or a '.'; that a float's text is never an integer literal follows (FloatText.ser_float_not_int) *)
+  Hypothesis F5 : forall b, is_finite b = true -> fbits_ok b = true -> In x65 (fmt_e b) \/ In x2e (fmt_e b).
+  Let F4 : forall b, is_finite b = true -> fbits_ok b = true -> pint0 (ser_float fmt_e fmt_f b) = None := ser_float_not_int fmt_e fmt_f F2 F5.
   Hypothesis F3 : pfloat (B"true") = None /\ pfloat (B"false") = None.
   Notation ser := (ser fmt_e fmt_f).
 
